@@ -40,6 +40,9 @@ def run_impl(codec_cls, chunks):
     return out
 
 
+MODEL_CASES = []
+
+
 def reasm_cases(run, rng, m, cls):
     streams = []
     frames = [m.wire(fid, rng.bytes(n)) for fid, n in ((2, 0), (1, 3), (4, 4), (6, 7), (1, 40))]
@@ -62,6 +65,10 @@ def reasm_cases(run, rng, m, cls):
         for ch in comps:
             got = run_impl(cls, list(ch))
             run.count("reassembly", (m.key(), s, tuple(ch)))
+            if getattr(m, "foot_kind", None) in ("xor", "sum") and isinstance(got, list):
+                MODEL_CASES.append(dict(cmd="fam_recv_all %s %s" % (m.arg(), ",".join(common.hexs(c) for c in ch)),
+                                        impl=";".join("%d:%s" % (f, common.hexs(p)) for f, p in got) or "-",
+                                        oracle=None, kind="model-reassembly", key=("mr", m.key(), tuple(ch))))
             if got != exp:
                 run.violation("reassembly with codec %s differs from the reference scan" % m.arg(),
                               {"codec": m.arg(), "chunks": [c.hex() for c in ch], "implementation": repr(got)[:600],
@@ -218,6 +225,9 @@ def main(run):
         if r:
             run.violation("session with codec %s: %s" % (m.arg(), r), {"codec": m.arg()})
             break
+    if not run.violations and run.build_model():
+        for what, c, mm in run.differential(MODEL_CASES):
+            run.violation(what, {"call": c["cmd"][:3000], "implementation": c["impl"][:2000], "model": mm[:2000]})
     return run.finish(rule=RULE, assumptions=[
         "the family's codec classes are harness code; what is under test is that comm.py / parse.py / parserecv.py use only the "
         "interface (hdr_len, foot_len, hdr_find, hdr_decode, foot_validate, frame_decode, frame_create)",
